@@ -1513,6 +1513,8 @@ func modeUUID(n int) {
 // uuidconc mode (runtime part of C06, "the same on every call, in every goroutine"): the UUIDs of a set of values are
 // computed sequentially first and then re-computed from many goroutines at once; every concurrent answer must equal the
 // sequential one.  Large text / blob literals of distinct content make a buffer shared between calls visible.
+var lightRun = false // smaller literals, fewer goroutines and repetitions: for the race-detector build
+
 func modeUUIDConc(n int) {
 	var vals []val
 	big := func(i, size int) string {
@@ -1528,6 +1530,9 @@ func modeUUIDConc(n int) {
 	p1, _ := predicate.NewImmutable("p")
 	for i := 0; i < 24; i++ {
 		size := []int{1 << 20, 1 << 18, 1 << 16, 4096}[i%4]
+		if lightRun {
+			size = []int{1 << 15, 1 << 13, 4096, 512}[i%4]
+		}
 		var l val
 		if i%3 == 2 {
 			l = litOf(literal.Blob, []byte(big(i, size)))
@@ -1551,8 +1556,11 @@ func modeUUIDConc(n int) {
 	if procs < 4 {
 		runtime.GOMAXPROCS(4)
 	}
-	const G = 64
+	G := 64
 	reps := 6
+	if lightRun {
+		G, reps = 16, 1
+	}
 	var wrong, calls int64
 	var mu sync.Mutex
 	var examples []J
@@ -1674,6 +1682,7 @@ func main() {
 	alpha := flag.String("alpha", "/<>_\"@[]^", "alphabet of the exhaustive enumeration")
 	maxlen := flag.Int("maxlen", 3, "maximal length of the exhaustive enumeration")
 	tier := flag.String("tier", "quick", "tier")
+	flag.BoolVar(&lightRun, "light", false, "uuidconc: light workload (race detector)")
 	flag.Parse()
 	rnd = rand.New(rand.NewSource(*seed))
 	defer out.Flush()
